@@ -108,6 +108,9 @@ def build():
     e1("_int_pack_size", {"C05": "*", "C10": "*", "C18": "*", "C04": "*", "C16": "*"}, harness=HW, unwind=9,
        note="pack loop <= 8 iterations by type: --unwind 9 with unwinding assertions is complete")
 
+    J.append(Job("E3/_write-overlapping-source/cap=8", "E3", HW, "h__write_overlap", {"C18": "*", "C04": "*"},
+                 defs=["VC_HARNESS_OBJECTS"], cbmc_args=["--unwind", "14", "--unwinding-assertions"], timeout=900, mem_gb=6,
+                 note="BOUNDED (capacity 8, every counter / offset / length): the source of a write lies inside the destination buffer; real _write, CBMC's library models of memmove/memcpy (memcpy asserts non-overlap)"))
     e1("_write_token", WP, harness=HW, replace=["_write", "_int_pack_size"], timeout=900)
     for fn in ("binson_write_object_begin", "binson_write_object_end", "binson_write_array_begin",
                "binson_write_array_end", "binson_write_boolean"):
